@@ -281,4 +281,217 @@ def check_model_counts(res, sc, ctx, case):
 
 def stages(tier):
     q = tier == "quick"
-    return [Stage("tables", "hyp", evaluate, n=256 if q else 5000, strategy=scenarios)]
+    return [Stage("tables", "hyp", evaluate, n=256 if q else 5000, strategy=scenarios),
+            Stage("counters", "hyp", eval_counters, n=4000 if q else 200000, strategy=counter_cases,
+                  vary_hashseed=True)]
+
+
+# ---------------------------------------------------------------------------------------------- counter level
+
+_cm = None
+
+
+def CM():
+    global _cm
+    if _cm is None:
+        import sys
+        from vlib import REPO
+        if REPO not in sys.path:
+            sys.path.insert(0, REPO)
+        import src.long_read_counter as lrc
+        import src.isoform_assignment as ia
+        import src.file_utils as fu
+        _cm = (lrc, ia, fu)
+    return _cm
+
+
+TYPES_T = ["unique", "unique_minor_difference", "ambiguous", "inconsistent", "inconsistent_non_intronic",
+           "inconsistent_ambiguous", "noninformative", "intergenic"]
+
+
+@st.composite
+def counter_cases(draw):
+    nchr = draw(st.integers(1, 3))
+    chroms = ["c%d" % i for i in range(nchr)]
+    feats = {c: {"g%s_%d" % (c, j): ["t%s_%d_%d" % (c, j, k) for k in range(draw(st.integers(1, 3)))]
+                 for j in range(draw(st.integers(1, 3)))} for c in chroms}
+    mono = draw(st.booleans())
+    reads = []
+    groups = draw(st.lists(st.sampled_from(["b", "a", "Z", "10", "9", "NA"]), min_size=1, max_size=4, unique=True))
+    n = draw(st.integers(0, 25))
+    for i in range(n):
+        c = draw(st.sampled_from(chroms))
+        t = draw(st.sampled_from(TYPES_T))
+        genes = list(feats[c])
+        if t in ("unique", "unique_minor_difference", "inconsistent", "inconsistent_non_intronic"):
+            g = draw(st.sampled_from(genes))
+            iso = [(g, draw(st.sampled_from(feats[c][g])))]
+        elif t in ("ambiguous", "inconsistent_ambiguous"):
+            pool = [(g, x) for g in genes for x in feats[c][g]]
+            if len(pool) < 2:
+                t = "unique"
+                iso = [pool[0]]
+            else:
+                k = draw(st.integers(2, min(3, len(pool))))
+                idx = draw(st.lists(st.integers(0, len(pool) - 1), min_size=k, max_size=k, unique=True))
+                iso = [pool[j] for j in idx]
+        else:
+            iso = []
+        gset = set(g for g, _ in iso)
+        if t in ("ambiguous",):
+            gt = "ambiguous" if len(gset) > 1 else "unique"
+        elif t == "inconsistent_ambiguous":
+            gt = "inconsistent_ambiguous" if len(gset) > 1 else "inconsistent"
+        else:
+            gt = t
+        reads.append({"id": "r%d" % i, "chr": c, "type": t, "gtype": gt, "iso": iso,
+                      "spliced": draw(st.booleans()), "group": draw(st.sampled_from(groups))})
+    return {"chroms": chroms, "feats": feats, "reads": reads, "groups": groups,
+            "tq": draw(st.sampled_from(counting.STRATEGIES)), "gq": draw(st.sampled_from(counting.STRATEGIES)),
+            "norm": draw(st.sampled_from(["simple", "usable_reads"])), "unaligned": draw(st.integers(0, 3)),
+            "mono_isoforms": mono, "fmt": draw(st.sampled_from(["matrix", "linear", "both"]))}
+
+
+class _GI:
+    def __init__(self, introns):
+        self.all_isoforms_introns = introns
+
+
+def eval_counters(case, ctx):
+    import os
+    lrc, ia, fu = CM()
+    d = ctx.scratch()
+    try:
+        chroms = case["chroms"]
+        label = "OUT"
+        introns = {}
+        for c in chroms:
+            for g, ts in case["feats"][c].items():
+                for t in ts:
+                    introns[t] = [] if case["mono_isoforms"] else [(10, 20)]
+        gi = _GI(introns)
+        groups = set(case["groups"])
+
+        def mk(level, prefix, strategy, feats, grouped):
+            f = lrc.create_gene_counter if level == "gene" else lrc.create_transcript_counter
+            if grouped:
+                return f(prefix, strategy, complete_feature_list=feats, read_groups=groups,
+                         grouped_format=lrc.GroupedOutputFormat[case["fmt"]])
+            return f(prefix, strategy, complete_feature_list=feats, output_zeroes=True)
+        mains = {}
+        for level, strategy in (("gene", case["gq"]), ("transcript", case["tq"])):
+            for grouped in (False, True):
+                mains[(level, grouped)] = mk(level, os.path.join(d, "%s.%s%s" % (label, level, "_grouped" if grouped else "")),
+                                             strategy, set(), grouped)
+        for c in chroms:
+            gf = set(case["feats"][c])
+            tf = set(t for ts in case["feats"][c].values() for t in ts)
+            cs = {}
+            for level, strategy, ff in (("gene", case["gq"], gf), ("transcript", case["tq"], tf)):
+                for grouped in (False, True):
+                    cs[(level, grouped)] = mk(level, os.path.join(d, "%s_%s.%s%s" % (label, c, level,
+                                                                                     "_grouped" if grouped else "")),
+                                              strategy, ff, grouped)
+            for r in case["reads"]:
+                if r["chr"] != c:
+                    continue
+                ms = [ia.IsoformMatch(ia.MatchClassification.genic, g, t) for g, t in r["iso"]]
+                a = ia.ReadAssignment(r["id"], ia.ReadAssignmentType[r["type"]], ms)
+                a.gene_assignment_type = ia.ReadAssignmentType[r["gtype"]]
+                a.read_group = r["group"]
+                a.corrected_exons = [(1, 9), (21, 30)] if r["spliced"] else [(1, 30)]
+                a.gene_info = gi
+                for k in cs:
+                    cs[k].add_read_info(a)
+            for k in cs:
+                cs[k].dump()
+        for k, m in mains.items():
+            fu.merge_counts(m, label, chroms, case["unaligned"])
+            m.convert_counts_to_tpm(case["norm"])
+        # expected
+        for level, strategy in (("gene", case["gq"]), ("transcript", case["tq"])):
+            exp = defaultdict(float)
+            gexp = defaultdict(float)
+            confirmed = set()
+            n_amb = n_no = 0
+            for r in case["reads"]:
+                at = r["type"] if level == "transcript" else r["gtype"]
+                feats = set(t for _, t in r["iso"]) if level == "transcript" else set(g for g, _ in r["iso"])
+                if r["type"] in ("noninformative", "intergenic") or not r["iso"]:
+                    n_no += 1
+                    continue
+                if at == "ambiguous":
+                    n_amb += 1
+                w = counting.weight(at, len(feats), strategy)
+                for f in feats:
+                    exp[f] += w
+                    gexp[(f, r["group"])] += w
+                if at in counting.UNIQUE:
+                    if level == "gene" or (r["type"] in counting.UNIQUE and (case["mono_isoforms"] or r["spliced"])):
+                        confirmed.add(list(feats)[0])
+            table = parse.counts_simple(os.path.join(d, "%s.%s_counts.tsv" % (label, level)))
+            universe = set()
+            for c_ in chroms:
+                universe |= set(case["feats"][c_]) if level == "gene" else \
+                    set(t for ts in case["feats"][c_].values() for t in ts)
+            for f in universe:
+                if f not in table:
+                    ctx.violation("C02:counter:%s-feature-missing-from-table" % level, {"feature": f}, case)
+                    continue
+                v, e = table[f], exp.get(f, 0.0)
+                if f in confirmed:
+                    if abs(v - e) > 0.005 + 1e-9:
+                        ctx.violation("C02:counter:%s-confirmed-feature-count-differs" % level,
+                                      {"feature": f, "table": v, "expected": round(e, 4), "strategy": strategy}, case)
+                elif v != 0 and abs(v - e) > 0.005 + 1e-9:
+                    ctx.violation("C02:counter:%s-count-neither-zero-nor-sum" % level,
+                                  {"feature": f, "table": v, "expected": round(e, 4), "strategy": strategy}, case)
+            if table.get("__ambiguous") != n_amb:
+                ctx.violation("C02:counter:%s-__ambiguous-differs" % level, {"table": table.get("__ambiguous"),
+                                                                             "expected": n_amb}, case)
+            if table.get("__no_feature") != n_no:
+                ctx.violation("C02:counter:%s-__no_feature-differs" % level, {"table": table.get("__no_feature"),
+                                                                              "expected": n_no}, case)
+            if case["unaligned"] and table.get("__not_aligned") != case["unaligned"]:
+                ctx.violation("C02:counter:%s-__not_aligned-differs" % level, {"table": table.get("__not_aligned"),
+                                                                               "expected": case["unaligned"]}, case)
+            check_tpm("counter:" + level, os.path.join(d, "%s.%s_counts.tsv" % (label, level)),
+                      os.path.join(d, "%s.%s_tpm.tsv" % (label, level)), case["norm"], ctx, case)
+            # grouped renderings
+            cells_m = cells_l = None
+            mp = os.path.join(d, "%s.%s_grouped_counts.tsv" % (label, level))
+            lp = os.path.join(d, "%s.%s_grouped_counts_linear.tsv" % (label, level))
+            if case["fmt"] in ("matrix", "both"):
+                gs, mat = parse.counts_matrix(mp)
+                cells_m = {(f, g): v for f, vals in mat.items() for g, v in zip(gs or [], vals)}
+            if case["fmt"] in ("linear", "both"):
+                cells_l = {}
+                for f, g, v in parse.counts_linear(lp):
+                    cells_l[(f, g)] = cells_l.get((f, g), 0.0) + v
+            for name, cells in (("matrix", cells_m), ("linear", cells_l)):
+                if cells is None:
+                    continue
+                by = defaultdict(dict)
+                for (f, g), v in cells.items():
+                    by[f][g] = v
+                for f in universe:
+                    row = by.get(f, {})
+                    if all(v == 0 for v in row.values()) and f not in confirmed:
+                        continue
+                    for g in set(row) | set(g_ for (f_, g_) in gexp if f_ == f):
+                        if abs(row.get(g, 0.0) - gexp.get((f, g), 0.0)) > 0.005 + 1e-9:
+                            ctx.violation("C02:counter:%s-grouped-%s-cell-differs" % (level, name),
+                                          {"feature": f, "group": g, "table": row.get(g, 0.0),
+                                           "expected": round(gexp.get((f, g), 0.0), 4)}, case)
+            if cells_m is not None and cells_l is not None:
+                for key in set(cells_m) | set(cells_l):
+                    if abs(cells_m.get(key, 0.0) - cells_l.get(key, 0.0)) > 1e-9:
+                        ctx.violation("C02:counter:%s-matrix-linear-disagree" % level, {"cell": key}, case)
+        kinds = set(r["type"] for r in case["reads"])
+        if "ambiguous" in kinds and any(k.startswith("inconsistent") for k in kinds) and len(chroms) >= 2:
+            ctx.mark_nontrivial(case_hash(case))
+            ctx.sample({"chroms": chroms, "reads": case["reads"][:4], "tq": case["tq"], "gq": case["gq"],
+                        "norm": case["norm"], "fmt": case["fmt"]}, limit=2)
+    finally:
+        import shutil
+        shutil.rmtree(d, ignore_errors=True)
